@@ -9,6 +9,7 @@ import (
 	"fmt"
 	"math"
 	"math/big"
+	"regexp"
 	"sort"
 	"strconv"
 	"strings"
@@ -98,22 +99,39 @@ func c11CanonTo(sb *strings.Builder, v any, cli bool) {
 		for k := range x {
 			keys = append(keys, k)
 		}
-		sort.Strings(keys)
+		if cli {
+			sort.Slice(keys, func(i, j int) bool { return string([]rune(keys[i])) < string([]rune(keys[j])) })
+		} else {
+			sort.Strings(keys)
+		}
 		sb.WriteByte('{')
 		for i, k := range keys {
 			if i > 0 {
 				sb.WriteByte(',')
 			}
-			b, _ := json.Marshal(k)
-			sb.Write(b)
+			// keys like string values: in JSON text every invalid UTF-8 byte is U+FFFD (harness flaw found by the
+			// thorough tier on `{(@base64d): 6}`: the reference key was escaped, the parsed one was not)
+			if cli {
+				b, _ := json.Marshal(string([]rune(k)))
+				sb.Write(b)
+			} else {
+				sb.WriteString(strconv.QuoteToASCII(k))
+			}
 			sb.WriteByte(':')
 			c11CanonTo(sb, x[k], cli)
 		}
 		sb.WriteByte('}')
 	default:
-		fmt.Fprintf(sb, "<%T %v>", v, v)
+		// error values travelling as data (gojq returns some type errors by value): their %v text contains the
+		// address of an inner pointer, which differs between two runs of the same program (harness flaw found by
+		// the thorough tier)
+		fmt.Fprintf(sb, "<%T %s>", v, c11StripAddrs(fmt.Sprintf("%v", v)))
 	}
 }
+
+var c11AddrRe = regexp.MustCompile(`0x[0-9a-f]{6,}`)
+
+func c11StripAddrs(s string) string { return c11AddrRe.ReplaceAllString(s, "0xADDR") }
 
 // c11Result of one reference run
 type c11Result struct {
@@ -175,7 +193,7 @@ func c11Run(code *gojq.Code, input any) (res c11Result) {
 	// the same for every text of the same program
 	defer func() {
 		if r := recover(); r != nil {
-			res.Err = fmt.Errorf("gojq panic: %v", r)
+			res.Err = fmt.Errorf("gojq panic: %s", c11StripAddrs(fmt.Sprintf("%v", r)))
 			res.ErrMsg = res.Err.Error()
 			res.Panicked = true
 		}
